@@ -238,7 +238,7 @@ var families = []Fam{
 			return []float64{p.Ps[0]}
 		},
 		Gp: func(p Params, x float64, fn string) [][2]float64 {
-			if fn == "LogPdf" {
+			if fn == "LogPdf" || x <= 0 { // Cdf / LogCdf return 0 / -Inf for x <= 0 without calling GammaP
 				return nil
 			}
 			return [][2]float64{{p.Ps[0], x * p.Ps[1]}}
@@ -297,7 +297,7 @@ var families = []Fam{
 			n := float64(p.Zs[0])
 			return []float64{n + 1, x + 1, n + 1 - x}
 		}},
-	{Name: "FCategorical", Fns: []string{"LogPdf", "LogCdf", "Cdf"}, Discrete: true,
+	{Name: "FCategorical", Fns: []string{"LogPdf", "LogCdf", "Cdf"}, Discrete: true, ErrKind: "OErrInt",
 		New: func(t ad.ScalarType, p Params) (interface{}, error) {
 			v := ad.NullDenseVector(t, len(p.Ps))
 			for i, x := range p.Ps {
@@ -355,7 +355,7 @@ var families = []Fam{
 			return []float64{p.Ps[0] / 2}
 		},
 		Gp: func(p Params, x float64, fn string) [][2]float64 {
-			if fn == "LogPdf" {
+			if fn == "LogPdf" || x <= 0 {
 				return nil
 			}
 			return [][2]float64{{p.Ps[0] / 2, x / 2}}
